@@ -148,6 +148,20 @@ def main():
     os.makedirs(os.path.join(HERE, ".work", "mutrun"), exist_ok=True)
     out = os.path.join(HERE, ".work", "mutrun", "%s%s.json" % (a.kind, ("-" + a.filter) if a.filter else ""))
     json.dump(sorted(results, key=lambda r: r["name"]), open(out, "w"), indent=1)
+    # committed summary (merged by patch name): which checks fired on which catalogued patch
+    summ_path = os.path.join(HERE, "selftest", "RESULTS.json")
+    try:
+        summ = json.load(open(summ_path))
+    except (OSError, ValueError):
+        summ = {}
+    head = sh(["git", "-C", "/repo", "rev-parse", "--short", "HEAD"]).stdout.strip()
+    for r in results:
+        ran = sorted(r.get("checks", {}))
+        summ[r["name"]] = {"kind": r["kind"], "expected": r.get("expected"), "ok": bool(r.get("ok")), "repo_head": head,
+                           "checks_run": "all 27" if len(ran) == len(ALL) else ran,
+                           "fired": sorted(c for c, v in r.get("checks", {}).items() if v["fired"]),
+                           "first_report": {c: v["first"][:220] for c, v in r.get("checks", {}).items() if v["fired"]}}
+    json.dump(summ, open(summ_path, "w"), indent=1, sort_keys=True)
     bad = [r["name"] for r in results if not r.get("ok")]
     print("%d patches, %d failed expectations: %s" % (len(results), len(bad), bad))
     return 1 if bad else 0
